@@ -42,3 +42,13 @@ add('C14', 'property-based metamorphic testing of into_bench with a structural i
     'Generated circuits with all rewritten gate types, identical operands, outputs and block members; per-gate reference '
     'tables, allowed type set, users multiset / top-sort invariant and block membership of helper gates after conversion.',
     TRUST)
+
+add('C11', 'property-based round-trip testing (print -> parse) and reference-model testing of generated textual layouts',
+    'Generated circuits with identifier labels incl. keyword-prefixed ones round-trip through format/parse and save/load; '
+    'generated layouts of a known netlist (declaration order, case, aliases, spacing, comments) must parse to that netlist.',
+    TRUST + ' Only layout constructs the parser documents are generated.')
+add('C16', 'property-based round-trip + rejection testing of the codec, bit I/O and dictionary I/O',
+    'In-format circuits must round-trip to an isomorphic circuit in any storage order; out-of-format circuits must raise a '
+    'codec error or round-trip; bit and dictionary writers/readers are checked as mutual inverses incl. overflow, '
+    'truncation (every prefix) and trailing data; in-memory database save/reopen.',
+    TRUST)
